@@ -589,8 +589,16 @@ class ViewParameter(AbstractParameter, ParameterListener):
 
     @tensor.setter
     def tensor(self, tensor: Tensor) -> None:
-        self.parameter.tensor[..., self.indices] = tensor
-        self.parameter.fire_parameter_changed()
+        if isinstance(self.parameter, ViewParameter):
+            # view of a view: write through the parent's setter so that the base
+            # parameter is updated (the parent's tensor can be a temporary) and
+            # the listeners of the base parameter are notified
+            parent_tensor = self.parameter.tensor.clone()
+            parent_tensor[..., self.indices] = tensor
+            self.parameter.tensor = parent_tensor
+        else:
+            self.parameter.tensor[..., self.indices] = tensor
+            self.parameter.fire_parameter_changed()
 
     @property
     def shape(self) -> torch.Size:
